@@ -107,6 +107,9 @@ func setValue(c *Corpus, t *T, w *W, dst reflect.Value) {
 		var m reflect.Value
 		n := len(w.L) / 2
 		mode := n % 4
+		if mode == 3 && n > 24 {
+			mode = 1 // larger odd sizes are built by plain insertion (the sizes at which a map is in the middle of a growth)
+		}
 		switch mode {
 		case 1:
 			m = reflect.MakeMap(dst.Type())
